@@ -72,7 +72,9 @@ func (fx *FuncExec) safe(ps *pathState, in ssa.Instruction, kind, text string, g
 		ps.st.assume(goal)
 		return
 	}
+	fx.pendingReplay = &ReplayInfo{fx: fx, kind: "safe"}
 	fx.addObl(fmt.Sprintf("safe:%s#%d", kind, fx.siteOrd[in]), "safe", fx.propDefault(), text, fx.posStr(in.Pos()), false, ps.st, goal, ps.trail)
+	fx.pendingReplay = nil
 	// continue under the assumption that the check passed (it is reported separately)
 	ps.st.assume(goal)
 }
